@@ -114,6 +114,18 @@ func variantJobs(seed uint64, round, v int) []hammerJob {
 			co.Execute64(delta/5, &s)
 			return fmt.Sprint(s)
 		}},
+		{"own:inflate-options", func() string {
+			// half of the goroutines pass options, the other half rely on the defaults, on a shape whose
+			// result depends on them (sharp corners: miter limit; round joins: arc tolerance)
+			spike := clip.Path64{{X: 0, Y: 0}, {X: 100, Y: 4}, {X: 0, Y: 8}, {X: 40, Y: 4}}
+			if v%2 == 0 {
+				return fmt.Sprint(clip.InflatePaths64(clip.Paths64{spike}, 3, clip.Miter, clip.Polygon, clip.WithMitterLimit(float64(3+v%8))),
+					clip.InflatePaths64(clip.Paths64{spike}, 3, clip.Round, clip.Polygon, clip.WithArcTolerance(arc)),
+					clip.InflatePathsD(clip.Paths64ToPathsD(clip.Paths64{spike}), 3, clip.Miter, clip.Polygon, clip.WithPrecision(v%3)))
+			}
+			return fmt.Sprint(clip.InflatePaths64(clip.Paths64{spike}, 3, clip.Miter, clip.Polygon), clip.InflatePaths64(clip.Paths64{spike}, 3, clip.Round, clip.Polygon),
+				clip.InflatePathsD(clip.Paths64ToPathsD(clip.Paths64{spike}), 3, clip.Miter, clip.Polygon))
+		}},
 		{"own:boolean", func() string {
 			return fmt.Sprint(clip.BooleanOpPaths64(clip.ClipType(1+v%4), a, line, fr), clip.UnionPaths64(a, fr))
 		}},
@@ -128,7 +140,7 @@ func variantJobs(seed uint64, round, v int) []hammerJob {
 
 func init() {
 	stages["c18-hammer"] = func(ctx *Ctx, cnt func(q, t int) int, replay string) Result {
-		col := NewCollector("C18", "hammer", "race-detector build: 32 goroutines × rounds call 16 job kinds (package-level functions, their own engine / offset / rect-clip objects; join type, end type incl. Joined on closed rings, and delta drawn per round) on shared read-only inputs, and 7 further job kinds on inputs and parameter values of its own (step counts, deltas, arc tolerances, fill rules, rectangles differ between goroutines, nothing is shared); each result is compared with the sequential result of the same job and the shared inputs are compared with their state before the round; non-trivial = every job (all produce non-empty output); the race detector aborts the process on any data race")
+		col := NewCollector("C18", "hammer", "race-detector build: 32 goroutines × rounds call 16 job kinds (package-level functions, their own engine / offset / rect-clip objects; join type, end type incl. Joined on closed rings, and delta drawn per round) on shared read-only inputs, and 8 further job kinds on inputs and parameter values of its own (step counts, deltas, arc tolerances, fill rules, rectangles, option values vs defaults differ between goroutines, nothing is shared); each result is compared with the sequential result of the same job and the shared inputs are compared with their state before the round; non-trivial = every job (all produce non-empty output); the race detector aborts the process on any data race")
 		rounds := cnt(40, 1500)
 		for round := 0; round < rounds; round++ {
 			r := NewRng(ctx.Seed, "c18", round)
